@@ -108,8 +108,9 @@ def main():
                    "wall_s": round(time.time() - t0, 2), "violations": len(violations)})
         ev["coverage"]["drift_steps"] = len(drift)
         ev["coverage"]["known_findings_seen"] = {k: len(v) for k, v in kf_seen.items()}
-        os.makedirs(os.path.join(VERIF, "evidence"), exist_ok=True)
-        with open(os.path.join(VERIF, "evidence", pid + ".json"), "w") as fh:
+        evdir = os.path.join(os.environ.get("VERIF_OUT") or VERIF, "evidence")
+        os.makedirs(evdir, exist_ok=True)
+        with open(os.path.join(evdir, pid + ".json"), "w") as fh:
             json.dump(ev, fh, indent=1, sort_keys=True)
     print("%s property=%s tier=%s violations=%d known=%d drift=%d wall=%.1fs"
           % ("FAIL" if violations else "PASS", pid, a.tier, len(violations),
